@@ -195,3 +195,91 @@ pub fn run_call_async(
     let r = guard(|| call(&lb, &spec.method, &spec.args));
     outcome(r, &rec, lb.last())
 }
+
+/// A raw request delivered straight to the endpoints of a generated service (no client).
+pub struct RawSpec {
+    pub method: String,
+    pub uri: String,
+    /// header values are given as strings whose chars are bytes (latin-1), so any byte is expressible
+    pub headers: Vec<(String, String)>,
+    pub body: String,
+    pub seed: u64,
+}
+
+fn raw_parts(spec: &RawSpec) -> (http::Method, http::Uri, http::HeaderMap, Vec<bytes::Bytes>) {
+    let method = http::Method::from_bytes(spec.method.as_bytes()).expect("method");
+    let uri: http::Uri = spec.uri.parse().unwrap_or_else(|e| panic!("harness rendered a bad uri {}: {}", spec.uri, e));
+    let mut headers = http::HeaderMap::new();
+    for (k, v) in &spec.headers {
+        let bytes: Vec<u8> = v.chars().map(|c| c as u32 as u8).collect();
+        headers.append(
+            http::header::HeaderName::from_bytes(k.as_bytes()).expect("header name"),
+            http::HeaderValue::from_bytes(&bytes).expect("header value"),
+        );
+    }
+    let mut rng = vcore::Rng::new(spec.seed);
+    let body: Vec<u8> = spec.body.chars().map(|c| c as u32 as u8).collect();
+    (method, uri, headers, crate::random_chunking(&mut rng, &body))
+}
+
+fn raw_outcome(result: Result<Result<u16, Error>, String>, rec: &Rec, ext: &http::Extensions, routes: usize) -> Value {
+    let calls: Vec<Value> = rec.calls.lock().unwrap().iter().map(|(e, a)| j_!({"endpoint": e, "args": a})).collect();
+    let res = match result {
+        Err(p) => j_!({"panic": p}),
+        Ok(Ok(status)) => j_!({"ok": status}),
+        Ok(Err(e)) => {
+            let code = match e.kind() {
+                conjure_error::ErrorKind::Service(s) => format!("{:?}", s.error_code()),
+                _ => "not-a-service-error".to_string(),
+            };
+            let sp: Vec<(String, String)> = e.safe_params().iter().map(|(k, v)| (k.to_string(), j(v))).collect();
+            j_!({"err": code, "safe_params": sp, "cause_safe": e.cause_safe(), "cause": e.cause().to_string()})
+        }
+    };
+    j_!({"result": res, "calls": calls, "routes_matched": routes, "safe_params": crate::loopback::safe_params_vec(ext)})
+}
+
+pub fn run_raw_sync(spec: &RawSpec, endpoints: impl FnOnce(Rec) -> Vec<Box<dyn conjure_http::server::Endpoint<Chunks, Vec<u8>> + Sync + Send>>) -> Value {
+    let rec = Rec::new(HashMap::new());
+    let eps = endpoints(rec.clone());
+    let (method, uri, headers, chunks) = raw_parts(spec);
+    let metas: Vec<&(dyn conjure_http::server::Endpoint<Chunks, Vec<u8>> + Sync + Send)> = eps.iter().map(|e| &**e).collect();
+    let mut routed = crate::route(&metas, &method, uri.path());
+    let n = routed.len();
+    let mut ext = http::Extensions::new();
+    if n != 1 {
+        return raw_outcome(Err("harness: request does not route to exactly one endpoint".into()), &rec, &ext, n);
+    }
+    let r = routed.pop().unwrap();
+    let mut req = http::Request::new(Chunks::of(chunks));
+    *req.method_mut() = method;
+    *req.uri_mut() = uri;
+    *req.headers_mut() = headers;
+    req.extensions_mut().insert(r.params);
+    let e = &eps[r.index];
+    let result = guard(|| e.handle(req, &mut ext).map(|resp| resp.status().as_u16()));
+    raw_outcome(result, &rec, &ext, n)
+}
+
+pub fn run_raw_async(spec: &RawSpec, endpoints: impl FnOnce(Rec) -> Vec<conjure_http::server::BoxAsyncEndpoint<'static, ChunkStream, Vec<u8>>>) -> Value {
+    use conjure_http::server::AsyncEndpoint;
+    let rec = Rec::new(HashMap::new());
+    let eps = endpoints(rec.clone());
+    let (method, uri, headers, chunks) = raw_parts(spec);
+    let metas: Vec<&conjure_http::server::BoxAsyncEndpoint<'static, ChunkStream, Vec<u8>>> = eps.iter().collect();
+    let mut routed = crate::route(&metas, &method, uri.path());
+    let n = routed.len();
+    let mut ext = http::Extensions::new();
+    if n != 1 {
+        return raw_outcome(Err("harness: request does not route to exactly one endpoint".into()), &rec, &ext, n);
+    }
+    let r = routed.pop().unwrap();
+    let mut req = http::Request::new(ChunkStream::new(Chunks::of(chunks)));
+    *req.method_mut() = method;
+    *req.uri_mut() = uri;
+    *req.headers_mut() = headers;
+    req.extensions_mut().insert(r.params);
+    let e = &eps[r.index];
+    let result = guard(|| crate::block_on(async { e.handle(req, &mut ext).await.map(|resp| resp.status().as_u16()) }));
+    raw_outcome(result, &rec, &ext, n)
+}
